@@ -69,6 +69,8 @@ def C08():
     jobs += _jobs("r_reg_spl", "lincomb_suite", [3], nmax=3)
     tot += r_reg.run_jobs(chk, u, "R-REG.refuse", jobs)
     chk.note("regions_evaluated", tot)
+    from . import controls
+    controls.require(chk, ['R-GRD.a', 'R-GRD.c'])
     return chk
 
 
@@ -276,6 +278,8 @@ def C05():
     from . import r_small
     nd = r_small.r_div(chk, _lib_units(["cases_off"]))
     chk.floor("R-DIV", nd, 8, "functions using a scalar of type S")
+    from . import controls
+    controls.require(chk, ['R-DIV'])
     return chk
 
 
@@ -403,6 +407,8 @@ def C20():
     chk.note("example_functions_analysed", nfun)
     if nfun < 15:
         raise AnalysisBroken("only %d example functions parsed" % nfun)
+    from . import controls
+    controls.require(chk, ['R-EX', 'R-OPT', 'R-GRD.a', 'R-OWN.field'])
     return chk
 
 
@@ -464,6 +470,8 @@ def C09():
     r_own.lifetimes(chk, units + _example_units())
     chk.floor("R-REG.ub", chk.rules["R-REG.ub"]["instances"], 120, "(function, clause) obligations")
     chk.floor("R-OPT", chk.rules["R-OPT"]["instances"], 8, "optional dereference sites")
+    from . import controls
+    controls.require(chk, ['R-OPT', 'R-OWN.field', 'R-LIFE'])
     return chk
 
 
@@ -503,6 +511,8 @@ def C10():
     r_own.commit_last(chk, units)
     chk.floor("R-INV", nsites, 15, "write sites of invariant-carrying members")
     chk.floor("R-REG.inv", chk.rules["R-REG.inv"]["instances"], 120, "(function, clause) obligations")
+    from . import controls
+    controls.require(chk, ['R-OWN.commit'])
     return chk
 
 
@@ -540,6 +550,8 @@ def C11():
     r_small.r_thr(chk, _lib_units())
     chk.floor("R-REG.val", chk.rules["R-REG.val"]["instances"], 45, "(function, clause) obligations")
     chk.floor("R-THR", chk.rules["R-THR"]["instances"], 20, "throw expressions")
+    from . import controls
+    controls.require(chk, ['R-THR'])
     return chk
 
 
@@ -574,6 +586,8 @@ def C14():
     chk.note("regions_evaluated", total)
     chk.floor("R-OWN.iface", chk.rules["R-OWN.iface"]["instances"], 100, "public functions")
     chk.floor("R-OWN.field", chk.rules["R-OWN.field"]["instances"], 15, "data members")
+    from . import controls
+    controls.require(chk, ['R-OWN.mutable', 'R-OWN.cast', 'R-OWN.field', 'R-OWN.iface', 'R-OWN.commit', 'R-GRD.a'])
     return chk
 
 
@@ -604,6 +618,8 @@ def C18():
     r_own.call_closure(chk, units)
     chk.floor("R-EFF.static", chk.rules["R-EFF.static"]["instances"], 5, "static-duration variables")
     chk.floor("R-OWN.mutable", chk.rules["R-OWN.mutable"]["instances"], 15, "data members")
+    from . import controls
+    controls.require(chk, ['R-EFF.static', 'R-EFF.closure', 'R-OWN.mutable', 'R-OWN.cast', 'R-OWN.field'])
     return chk
 
 
